@@ -575,6 +575,181 @@ func firstFrames(st []byte) string {
 	return strings.Join(lines, "\n")
 }
 
+// ---- second family: in-process write faults (no crash, no reopen) ------------------------------------
+
+// faultRun executes the history; during commit number fc (1-based) the fk-th flat-file operation
+// (WriteAt / Sync / Truncate) fails with an error. fc = 0: no fault, only counts the operations of
+// every commit. After the failed commit, WITHOUT reopening: the commit must have reported an
+// error, the visible state must be the state before it (no trace), every committed block must
+// still fetch byte-exact, one more commit storing a block must work; then the same after a clean
+// close + reopen.
+func faultRun(h history, cfg, dir string, fc, fk int) (opsPerCommit []int, probs []violation, opKind string) {
+	os.RemoveAll(dir)
+	defer os.RemoveAll(dir)
+	defer func() {
+		if p := recover(); p != nil {
+			probs = append(probs, violation{Sig: "fault|panic|" + evid.PanicSite(debug.Stack()), What: fmt.Sprintf("history %s (%s), fault at operation %d of commit %d: panic: %v", h.Name, cfg, fk, fc, p)})
+		}
+	}()
+	rec := crashx.New(dir, dir+"-snaps") // disabled: this family takes no snapshots
+	ops, commits, base := 0, 0, 0
+	install := func(db database.DB) {
+		ffldb.VerifWrapFiles(db, func(num uint32, f ffldb.VerifFiler) ffldb.VerifFiler {
+			return &crashx.File{Under: f, Rec: rec, Name: fmt.Sprintf("%09d.fdb", num), OpCounter: &ops,
+				FailOp: func(n int, op string, size int) (int, bool) {
+					if commits == fc && n-base == fk {
+						opKind = op
+						return size / 2, true
+					}
+					return 0, false
+				}}
+		}, nil, nil)
+	}
+	db, err := database.Create("ffldb", dir, magic)
+	if err != nil {
+		evid.Fatalf("create: %v", err)
+	}
+	defer func() {
+		if db != nil {
+			db.Close()
+		}
+	}()
+	setup(db, cfg, false)
+	install(db)
+	cur := state{Meta: map[string]string{}, Blocks: map[int]int{}}
+	known := map[int]int{}
+	next := 0
+	where := func() string {
+		return fmt.Sprintf("history %s (%s), %s fails as operation %d of commit %d", h.Name, cfg, opKind, fk, fc)
+	}
+	check := func(clause string, want state, extra string) bool {
+		got, ps := readState(db, known)
+		if len(ps) > 0 {
+			probs = append(probs, violation{Sig: "fault|read-fails-" + clause + "|" + opKind, What: where() + ": " + extra + ": " + strings.Join(ps, "; ")})
+			return false
+		}
+		if !got.equal(want) {
+			probs = append(probs, violation{Sig: "fault|state-" + clause + "|" + opKind, What: fmt.Sprintf("%s: %s: visible state %v, expected %v", where(), extra, got, want)})
+			return false
+		}
+		return true
+	}
+	for _, st := range h.Steps {
+		if st.Reopen {
+			db.Close()
+			if db, err = database.Open("ffldb", dir, magic); err != nil {
+				evid.Fatalf("fault family: clean reopen: %v", err)
+			}
+			setup(db, cfg, false)
+			install(db)
+			continue
+		}
+		commits++
+		base = ops
+		n := next
+		for _, a := range st.Actions {
+			if a.Kind == "sb" {
+				known[n] = a.Size
+				n++
+			}
+		}
+		setup(db, cfg, st.Flush)
+		t, err := db.Begin(true)
+		if err != nil {
+			evid.Fatalf("begin: %v", err)
+		}
+		if err := runActions(t, st.Actions, next); err != nil {
+			evid.Fatalf("fault family: action: %v", err)
+		}
+		err = t.Commit()
+		setup(db, cfg, false)
+		opsPerCommit = append(opsPerCommit, ops-base)
+		if commits != fc {
+			if err != nil {
+				evid.Fatalf("fault family: commit %d failed without a fault: %v", commits, err)
+			}
+			cur = apply(cur, st.Actions, &next)
+			continue
+		}
+		next = n // the indices the failed transaction used are never reused
+		if err == nil {
+			probs = append(probs, violation{Sig: "fault|commit-reports-success|" + opKind, What: where() + ": Commit returned nil although a flat-file operation failed"})
+			return
+		}
+		// 1. no trace, everything committed earlier still readable — without reopening
+		if !check("after-failed-commit", cur, "right after the failed commit, same process") {
+			return
+		}
+		// 2. later commits continue to work
+		extra := 90
+		known[extra] = 60
+		if err := db.Update(func(t database.Tx) error {
+			if err := t.Metadata().Put([]byte("zz"), []byte("after-fault")); err != nil {
+				return err
+			}
+			return t.StoreBlock(blockHash(extra), blockData(extra, 60))
+		}); err != nil {
+			probs = append(probs, violation{Sig: "fault|next-commit-fails|" + opKind, What: where() + ": the next commit (one key, one block) failed: " + err.Error()})
+			return
+		}
+		want := cur.clone()
+		want.Meta["zz"] = "after-fault"
+		want.Blocks[extra] = 60
+		if !check("after-next-commit", want, "after one more commit, same process") {
+			return
+		}
+		// 3. and after a clean close + reopen
+		if err := db.Close(); err != nil {
+			probs = append(probs, violation{Sig: "fault|close-fails|" + opKind, What: where() + ": Close failed: " + err.Error()})
+			db = nil
+			return
+		}
+		if db, err = database.Open("ffldb", dir, magic); err != nil {
+			db = nil
+			probs = append(probs, violation{Sig: "fault|reopen-fails|" + opKind, What: where() + ": Open after a clean Close failed: " + err.Error()})
+			return
+		}
+		setup(db, cfg, false)
+		check("after-reopen", want, "after close + reopen")
+		return
+	}
+	return
+}
+
+type faultOutT struct {
+	Runs       int
+	Kinds      map[string]int
+	Violations []evid.Violation
+}
+
+func faultFamily(h history, cfg, scratch string) faultOutT {
+	out := faultOutT{Kinds: map[string]int{}}
+	for _, st := range h.Steps {
+		if st.FailWrite > 0 {
+			return out // histories with their own scripted fault belong to the crash family
+		}
+	}
+	ops, _, _ := faultRun(h, cfg, filepath.Join(scratch, "fdb"), 0, 0)
+	seen := map[string]int{}
+	for c, n := range ops {
+		for k := 1; k <= n; k++ {
+			_, probs, kind := faultRun(h, cfg, filepath.Join(scratch, "fdb"), c+1, k)
+			out.Runs++
+			out.Kinds[kind]++
+			for _, v := range probs {
+				if i, ok := seen[v.Sig]; ok {
+					out.Violations[i].Count++
+					continue
+				}
+				seen[v.Sig] = len(out.Violations)
+				out.Violations = append(out.Violations, evid.Violation{Signature: "C17|" + v.Sig, What: v.What, Count: 1,
+					Artefact: artefact{History: h, Config: cfg, Seq: -(c+1)*1000 - k, Site: "fault:" + kind}})
+			}
+		}
+	}
+	return out
+}
+
 // ---- worker / parent -----------------------------------------------------------------------------
 
 type artefact struct {
@@ -595,6 +770,8 @@ type workerOut struct {
 	Outcomes   map[string]int // siteClass|old or new
 	Violations []evid.Violation
 	Sample     interface{}
+	FaultRuns  int
+	FaultKinds map[string]int
 }
 
 func parseCtx(c string) (int, int) {
@@ -665,6 +842,9 @@ func main() {
 			if h.Name == f[0] {
 				out := runJob(h, f[1], scratch, -1)
 				out.Job = job
+				fo := faultFamily(h, f[1], scratch)
+				out.FaultRuns, out.FaultKinds = fo.Runs, fo.Kinds
+				out.Violations = append(out.Violations, fo.Violations...)
 				os.RemoveAll(scratch)
 				par.Emit(out)
 				return
@@ -676,6 +856,18 @@ func main() {
 		var a artefact
 		r.LoadReplay(&a)
 		scratch := evid.Scratch("c17r")
+		if a.Seq < -1 { // in-process fault: -(commit*1000 + operation)
+			_, probs, _ := faultRun(a.History, a.Config, filepath.Join(scratch, "fdb"), (-a.Seq)/1000, (-a.Seq)%1000)
+			os.RemoveAll(scratch)
+			for _, v := range probs {
+				fmt.Printf("replay: %s/%s fault %d -> FAIL C17|%s: %s\n", a.History.Name, a.Config, a.Seq, v.Sig, v.What)
+				r.Violate("C17|"+v.Sig, v.What, a)
+			}
+			if len(probs) == 0 {
+				fmt.Printf("replay: %s/%s fault %d -> ok\n", a.History.Name, a.Config, a.Seq)
+			}
+			r.Finish(evid.Coverage{})
+		}
 		out := runJob(a.History, a.Config, scratch, a.Seq)
 		os.RemoveAll(scratch)
 		for _, v := range out.Violations {
@@ -700,7 +892,8 @@ func main() {
 	defer os.RemoveAll(scratch)
 	results := par.Procs(jobs, scratch, par.Opts{Timeout: time.Hour, MemMB: 4096})
 	os.RemoveAll(scratch)
-	points, snaps, nontrivial, retries := 0, 0, 0, 0
+	points, snaps, nontrivial, retries, faultRuns := 0, 0, 0, 0, 0
+	faultKinds := map[string]int{}
 	sites := map[string]int{}
 	outcomes := map[string]int{}
 	var samples []interface{}
@@ -721,6 +914,10 @@ func main() {
 		snaps += o.Snapshots
 		nontrivial += o.NonTrivial
 		retries += o.Retries
+		faultRuns += o.FaultRuns
+		for k, v := range o.FaultKinds {
+			faultKinds[k] += v
+		}
 		for k, v := range o.Sites {
 			sites[k] += v
 		}
@@ -742,6 +939,8 @@ func main() {
 		"distinct_nontrivial":                     nontrivial,
 		"crash_points_visited":                    points,
 		"crash_states_reopened":                   snaps,
+		"in_process_fault_runs":                   faultRuns,
+		"in_process_faults_by_operation":          faultKinds,
 		"copies_repeated_because_directory_moved": retries,
 		"points_per_site":                         sites,
 		"recovered_state_per_site":                outcomes,
@@ -753,6 +952,7 @@ func main() {
 		"exhaustive":                              true,
 		"samples":                                 samples,
 		"rule": "for every history (3-7 commits mixing block stores that roll block files over at 256 bytes, metadata puts/deletes, bucket create/delete, an injected flat-file write failure that makes a commit fail, clean close+reopen) x cache configuration {flush on every commit, write-back with one flushing commit}: one execution visits every crash point = every statement of the instrumented ffldb functions + every flat-file WriteAt (also torn in the middle), Truncate, Sync, Close, Delete; the directory is copied at every point; evaluations = distinct (directory content, durable/interrupted context) copies, each reopened with the real driver; distinct_nontrivial = copies whose content differs from the content at the beginning of the commit/close in progress; " +
+			"second family (in-process faults, no crash, no reopen): for every history without a scripted fault, every commit and every k, the k-th flat-file WriteAt (after half its bytes) / Sync / Truncate of that commit returns an error: Commit must report an error, the visible state must be the state before the commit with every earlier block still byte-exact, one more commit storing a block must succeed and be readable, and the same after a clean close + reopen; " +
 			"oracle: Open succeeds without panic; the visible metadata and the set of fetchable blocks equal the model state after exactly one commit j with durable <= j <= interrupted; every indexed block fetches with its stored bytes; one more commit + close + reopen shows that state plus the new commit",
 	}
 	r.Assume = append(r.Assume,
